@@ -122,6 +122,9 @@ def _value_of(expr: Expr) -> Number | None:
         # Raised, with various messages, whenever the expression has no numerical value yet
         # (free symbols, unevaluated sums or products with symbolic limits, ...).
         return None
+    if value is sympy.nan:
+        # e.g. a product of zeros over a range whose length is still symbolic: no numerical value yet either
+        return None
 
     # Map to integer if possible
     if int(value) == value or value.is_Float and value % 1 == 0:
